@@ -44,6 +44,8 @@ pub struct Interp {
     budget: u32,
     /// wait for this cell before continuing
     sleeping_on: Option<usize>,
+    /// the runtime's own `yield_async()` future, polled once so far
+    yielding: Option<Pin<Box<dyn Future<Output = ()>>>>,
 }
 
 fn noop_waker() -> Waker {
@@ -62,7 +64,7 @@ impl Interp {
             w.interps.len() - 1
         });
         let budget = prog.budget;
-        Interp { iid, prog, finishing: false, done: false, budget, sleeping_on: None }
+        Interp { iid, prog, finishing: false, done: false, budget, sleeping_on: None, yielding: None }
     }
 
     fn owned(&self) -> Vec<usize> {
@@ -173,6 +175,9 @@ enum A {
     Nested(u32),
     Move(usize, usize),
     Pause,
+    /// `yield_blocking()` (thread.yield: the host makes progress in the middle of a poll)
+    /// and a balanced `backpressure_inc()` / `backpressure_dec()` pair
+    HostYield,
 }
 
 impl Future for Interp {
@@ -203,6 +208,11 @@ impl Future for Interp {
         let mut self_woken = false;
         let mut quota = 1 + pick(4);
         let mut forced = 0u32;
+        if let Some(mut f) = me.yielding.take() {
+            if f.as_mut().poll(cx).is_pending() {
+                violate("H-API", "yield_async", "yield_async() was still pending on its second poll".into());
+            }
+        }
         loop {
             // events consumed since we last looked (e.g. inside a nested block_on)
             process_delivered();
@@ -326,6 +336,7 @@ impl Future for Interp {
                     }
                 }
                 acts.push((A::Pause, p.w_pause));
+                acts.push((A::HostYield, 1));
             } else if !me.finishing {
                 me.finishing = true;
                 continue;
@@ -402,7 +413,19 @@ impl Future for Interp {
                     gtr!("i{}: yield (wake self, return Pending)", me.iid);
                     fault("self_wake_yield");
                     classify_wake(tid, me.iid);
-                    wake_counted(tid, cx.waker(), true);
+                    if pick(2) == 0 {
+                        wake_counted(tid, cx.waker(), true);
+                    } else {
+                        // through the runtime's own API: the first poll of `yield_async()` wakes
+                        // the waker and is pending, the second one is ready
+                        fault("yield_async_api");
+                        crate::world::note_wake(tid);
+                        let mut f: Pin<Box<dyn Future<Output = ()>>> = Box::pin(wit_bindgen::yield_async());
+                        if f.as_mut().poll(cx).is_ready() {
+                            violate("H-API", "yield_async", "yield_async() was ready on its first poll: it did not yield".into());
+                        }
+                        me.yielding = Some(f);
+                    }
                     self_woken = true;
                     wwith(|w| w.interps[me.iid].last_self_wake_seq = w.gseq);
                     quota = 0;
@@ -506,6 +529,16 @@ impl Future for Interp {
                 }
                 A::Pause => {
                     quota = 0;
+                }
+                A::HostYield => {
+                    gtr!("i{}: yield_blocking() inside a poll", me.iid);
+                    fault("thread_yield_inside_poll");
+                    wit_bindgen::backpressure_inc();
+                    let go_on = wit_bindgen::yield_blocking();
+                    wit_bindgen::backpressure_dec();
+                    if !go_on {
+                        violate("H-API", "yield_blocking", "yield_blocking() reported a cancellation the host never sent".into());
+                    }
                 }
             }
         }
